@@ -479,8 +479,12 @@ class Enumerator:
         out = {}
         for nm, lit in self.prog.module_constants(
                 finfo.module, names_ok=True).items():
+            fn_table = isinstance(lit, (ast.Tuple, ast.List)) and lit.elts \
+                and all(isinstance(x, ast.Name) and '%s.%s' % (
+                    finfo.module.name, x.id) in self.prog.functions
+                    for x in lit.elts)
             if nm not in local and (isinstance(lit, (ast.Dict, ast.Call))
-                                    or not any(
+                                    or fn_table or not any(
                     isinstance(x, (ast.Name, ast.Attribute))
                     for x in ast.walk(lit))):
                 # plain constants, and lookup tables (whose values may name
@@ -1694,7 +1698,7 @@ class Enumerator:
 
     PURE_BUILTINS = ('len', 'isinstance', 'bool', 'str', 'int', 'float',
                      'tuple', 'frozenset', 'abs', 'repr', 'callable',
-                     'issubclass', 'hasattr')
+                     'issubclass', 'hasattr', 'type')
 
     def _pure_expr(self, v):
         """Only pure builtins are called and nothing else has an effect."""
